@@ -451,7 +451,7 @@ func genMeta(t *rapid.T) Msg {
 		}
 	}
 	incons := false
-	switch rapid.IntRange(0, 6).Draw(t, "metaBody") {
+	switch rapid.IntRange(0, 7).Draw(t, "metaBody") {
 	case 0:
 		full := gen.MetaBody(rapid.IntRange(0, 2).Draw(t, "metaVariant"))
 		_, n, _ := amfFirstString(full)
@@ -498,6 +498,29 @@ func genMeta(t *rapid.T) Msg {
 		for i := 0; i < rapid.IntRange(1, 20).Draw(t, "nest"); i++ {
 			b = append(b, 3, 0, 1, 'a')
 		}
+	case 6:
+		// AMF0 long string (marker 0x0c) whose 32-bit length field says more than the message holds - after the name or as a property value inside the onMetaData object / ECMA array
+		// (seed c05-g: 4+len wraps around in 32 bits for len >= 0xfffffffc)
+		ls := append([]byte{0x0c}, be32(rapid.SampledFrom([]uint32{0xFFFFFFFF, 0xFFFFFFFE, 0xFFFFFFFD, 0xFFFFFFFC, 0xFFFFFFFB, 0x7FFFFFFF, 0x80000000, 0x01000000, 5, 0}).Draw(t, "longStrLen"))...)
+		ls = append(ls, drawBytes(t, 0, 6, "longStrBody")...)
+		// (a long string as the FIRST value is outside the domain: the check's domain is "first value is a string name")
+		switch rapid.IntRange(1, 3).Draw(t, "longStrAt") {
+		case 1:
+			b = append(b, ls...)
+		default:
+			marker := rapid.SampledFrom([]byte{3, 8, 10}).Draw(t, "longStrIn")
+			b = append(b, marker)
+			if marker != 3 {
+				b = append(b, 0, 0, 0, 1)
+			}
+			if marker != 10 {
+				k := rapid.SampledFrom([]string{"encoder", "videocodecid", "a"}).Draw(t, "longStrKey")
+				b = append(b, byte(len(k)>>8), byte(len(k)))
+				b = append(b, k...)
+			}
+			b = append(b, ls...)
+		}
+		incons = true
 	default:
 		// nothing follows the name
 	}
